@@ -464,5 +464,11 @@ for nm, base in [("PomXmlFilter", "pom.xml"), ("BuildGradleFilter", "build.gradl
 row(props=["C20"], func="varfield:analysis/python/app.analysisCmd.Run", params=["cmd", "args"], kind="callarg", callee="pkg/application/analysis.CommonAnalysis", arg=3,
     expr='global("pkg/adapter/cocafile.PythonFileFilter")', what="the Python analysis reads Python files")
 
+IDS = "AllIdentifier(CreatedName(ctx))"
+row(props=["C02"], func=FL + "(JavaFullListener).EnterCreator", params=["s", "ctx"], kind="callarg", callee=FL + "buildCreatorCall", arg=0,
+    expr="GetText(%s[len(%s) - 1])" % (IDS, IDS), what="a creation is recorded under the last identifier of the created name (type arguments are no part of it: new ArrayList<Map.Entry<K,V>>() creates an ArrayList)")
+row(props=["C02"], func=FL + "BuildMethodCallMethod", params=["call", "callee", "targetType", "ctx"], kind="callarg", callee=FL + "WarpTargetFullType", arg=0,
+    expr="targetType", what="the receiver is resolved under the text it was written with (an unqualified call is recognised by its whole text; cutting that text at a '<' of its arguments loses the call)")
+
 json.dump({"e5": rows}, open(os.path.join(os.path.dirname(os.path.dirname(os.path.abspath(__file__))), "spec", "e5.json"), "w"), indent=1, ensure_ascii=False)
 print(len(rows), "rows")
